@@ -289,6 +289,7 @@ func ResetTemp() {
 // directory images
 
 var snapName = regexp.MustCompile(`^snapshot-\d+$`)
+var tsName = regexp.MustCompile(`snapshot-\d{12,}`)
 
 // DirEntryInfo describes one file of an image.
 type DirEntryInfo struct {
@@ -406,6 +407,8 @@ type Failure struct {
 
 func failf(sig, format string, a ...any) *Failure {
 	d := fmt.Sprintf(format, a...)
+	// snapshot directories are named by wall-clock nanoseconds
+	d = tsName.ReplaceAllString(d, "snapshot-<ns>")
 	// protobuf-go varies the space in its error texts from build to build
 	d = strings.ReplaceAll(d, "\u00a0", " ")
 	if scratchRoot != "" {
